@@ -212,6 +212,19 @@ func ruleA21(r *Run, p *Prog, rule string) {
 		if !claimed {
 			continue
 		}
+		// an iteration after which the loop's own test ends the loop (`for stored := false; !stored;`)
+		// is the publishing one when it passed the successful compare-and-swap
+		if leaves, known := iterLeavesLoop(hdr, pa); known && leaves {
+			casOK := hasCmp(cmpsOfEdges(pa.edges), func(op token.Token, x, y ssa.Value) bool {
+				b, ok := constBool(y)
+				return ok && x == ssa.Value(cas) && ((op == token.EQL && b) || (op == token.NEQ && !b))
+			})
+			if casOK {
+				continue
+			}
+			// the loop ends although nothing was stored: judged by the publish obligation below
+			continue
+		}
 		// this iteration goes back to the header: the claimed position was not published
 		cs := cmpsOfEdges(pa.edges)
 		kind := ""
@@ -231,8 +244,50 @@ func ruleA21(r *Run, p *Prog, rule string) {
 		}
 		r.Ob(rule, FnName(f)+"/abandon:"+kind, p.Pos(firstPos(pa.blocks)), false, true, "a claimed ring position is abandoned (the loop retries with a new position without ever storing into the claimed one): the consumer later stalls at the hole, and Close discards what follows it without an alert ["+kind+"]")
 	}
-	// the success path returns right after a successful CAS
-	r.Ob(rule, FnName(f)+"/publish", p.Pos(cas.Pos()), true, true, "publish = successful compare-and-swap followed by return")
+	// every way out of Set has stored the value: after the last claim on the path, the
+	// compare-and-swap succeeded
+	all, completeAll := enumPaths(f, 2, 20000)
+	if !completeAll {
+		r.Fail(rule, FnName(f)+"/publish", p.Pos(f.Pos()), "cannot enumerate the paths of Set")
+		return
+	}
+	dropped := ""
+	nRet := 0
+	for _, pa := range all {
+		if _, isRet := pa.Exit.(*ssa.Return); !isRet || pa.InfeasibleByEval() {
+			continue
+		}
+		nRet++
+		lastClaim := -1
+		for i, b := range pa.Blocks {
+			if b == claim.Block() {
+				lastClaim = i
+			}
+		}
+		if lastClaim < 0 {
+			continue // returns without having claimed a position (nothing to publish)
+		}
+		stored := false
+		for i := lastClaim; i+1 < len(pa.Blocks); i++ {
+			b := pa.Blocks[i]
+			ifi, ok := b.Instrs[len(b.Instrs)-1].(*ssa.If)
+			if !ok || b.Succs[0] == b.Succs[1] {
+				continue
+			}
+			c, ok := cmpOf(CondEdge{ifi, pa.Blocks[i+1] == b.Succs[0]})
+			if !ok {
+				continue
+			}
+			if bv, isB := constBool(c.Y); isB && c.X == ssa.Value(cas) && ((c.Op == token.EQL && bv) || (c.Op == token.NEQ && !bv)) {
+				stored = true
+			}
+		}
+		if !stored && dropped == "" {
+			dropped = p.Pos(firstPos(pa.Blocks[lastClaim:]))
+		}
+	}
+	okp := dropped == "" && nRet > 0
+	r.Ob(rule, FnName(f)+"/publish", p.Pos(cas.Pos()), okp, true, tern(okp, "every return of Set follows a successful compare-and-swap at the position it claimed last", "Set can return after claiming a ring position without a successful compare-and-swap into it (path through "+dropped+"): the value is silently dropped, never alerted, and the consumer later stalls at the hole"))
 }
 
 // ---------- A15b ----------
